@@ -250,7 +250,7 @@ def r4_follow_last_only(ctx):
         fe = failure_edges(b, T, r_)
         if not fe:
             continue
-        reach = cfg.edge_targets_reachable(fe[0], cut_edges=link_eq)
+        reach = cfg.precise_reach(fe[0], cut_edges=link_eq)
         if sinks and sinks[0].bb not in reach and any(x.bb in reach for x in fb):
             okfb = True
     (out.append(holds("C07.R4", "open_follow:non-link-fallback", b.where(), "targets that are not links are opened through the no-follow ProcfsHandle::open")) if okfb else
